@@ -162,35 +162,19 @@ theorem written_ref_decodes {col row : Int} {ref : Bytes}
 theorem writeCell_renders_tree (x : Ext) (c : XC) : renderCell (writeCellTree x c) = writeCell x c :=
   render_writeCellTree x c
 
-/-- **writeCell_eq_marshal** (partial: the hypothesis `c.is ≠ .runs []` is needed, see the finding below).
-For every cell record with a reference — every value kind, with or without style, formula, `xml:space` —
-the element `writeCell` writes is the element `encoding/xml` marshals for the same `xlsxC`: same attributes in
-the same order (`xml:space`, `r`, `s`, `t`), same children (`f`, `v`, `is` › `t` | runs), same text. -/
-theorem writeCell_eq_marshal_partial (x : Ext) (c : XC) (hr : c.r ≠ []) (his : c.is ≠ .runs []) :
-    writeCellTree x c = marshalTree x c :=
-  tree_eq_marshal x c hr his
-
-/-- The full statement fails on exactly one shape: rich text without runs (`[]RichTextRun{}`). The marshaller
-writes an empty `<is>` element for the non-nil `IS`, `writeCell` writes nothing. -/
-theorem finding_writeCell_omits_empty_is (x : Ext) :
-    ∃ c : XC, c.r ≠ [] ∧ writeCellTree x c ≠ marshalTree x c := by
-  refine ⟨{ r := lit "A1", s := 0, t := lit "inlineStr", v := [], f := none, is := .runs [], space := false },
-    by decide, ?_⟩
-  intro h
-  have := congrArg CellTree.kids h
-  simp [writeCellTree, marshalTree] at this
-
-/-- … and that difference is not observable: for every record, `writeCell`'s element is what the marshaller
-writes for the record a decoder reads back from it, and the decoder's record has the same observation. -/
-theorem writeCell_eq_marshal_reparsed (x : Ext) (c : XC) (hr : c.r ≠ []) :
-    writeCellTree x c = marshalTree x (reparse c) ∧ readCell x (reparse c) = readCell x c :=
-  ⟨tree_eq_marshal_reparsed x c hr, readCell_reparse x c⟩
+/-- **writeCell_eq_marshal.** For every cell record with a reference — every value kind, with or without style,
+formula, `xml:space`, rich text with or without runs — the element `writeCell` writes is the element `encoding/xml`
+marshals for the same `xlsxC`: same attributes in the same order (`xml:space`, `r`, `s`, `t`), same children
+(`f`, `v`, `is` › `t` | runs), same text. (Full strength since `fix: StreamWriter.writeCell writes one inline string
+element…`; before it rich text without runs produced no `<is>` where the marshaller writes an empty one.) -/
+theorem writeCell_eq_marshal (x : Ext) (c : XC) (hr : c.r ≠ []) : writeCellTree x c = marshalTree x c :=
+  tree_eq_marshal x c hr
 
 /-- Every cell an accepted SetRow writes satisfies the hypothesis (its reference is not empty). -/
 theorem setRow_cells_eq_marshal (x : Ext) (cs : ColStyles) (rs row col : Int) (items : List Item) (cells : List XC)
     (h : rowCells x cs rs row col items = .ok cells) :
-    ∀ c ∈ cells, writeCellTree x c = marshalTree x (reparse c) :=
-  fun c hc => tree_eq_marshal_reparsed x c (rowCells_r_ne_nil x cs rs row items col cells h c hc)
+    ∀ c ∈ cells, writeCellTree x c = marshalTree x c :=
+  fun c hc => tree_eq_marshal x c (rowCells_r_ne_nil x cs rs row items col cells h c hc)
 
 /-- The struct tags the marshaller model is written against (regenerated): field order, `attr`, `omitempty`,
 `chardata` of `xlsxC`, `xlsxSI`, `xlsxT`, `xlsxR`, and the leading fields of `xlsxF`. -/
@@ -236,44 +220,42 @@ theorem row_tags_ok :
 /-! ## Flush: the part after `sheetData` in schema order -/
 
 /-- indices of the `xlsxWorksheet` fields in the order the stream writer emits them: prolog, pre-data, `cols` and
-`sheetData` by hand, the first Flush range, `mergeCells` by hand, the second range, `tableParts` by hand, the third range -/
+`sheetData` by hand, the first Flush range, `mergeCells` by hand, the second range, the table parts (AddTable's element
+or the worksheet's own field — one of the two), the extension list -/
 def emittedFields : List Nat :=
   let rg := fun (r : Nat × Nat) => List.range' r.1 (r.2 + 1 - r.1)
   Facts.C11.bulk_NewStreamWriter.flatMap rg ++ Facts.C11.bulk_writeSheetData.flatMap rg ++ [6, 7]
     ++ (match Facts.C11.bulk_Flush with
-        | [r1, r2, r3] => rg r1 ++ [16] ++ rg r2 ++ [40] ++ rg r3
+        | [r1, r2, r3, r4] => rg r1 ++ [16] ++ rg r2 ++ rg r3 ++ rg r4
         | _ => [])
 
-/-- **Schema order.** The stream writer emits the worksheet children in the order of the `xlsxWorksheet` struct
-(= the order of the schema): indices never decrease; the hand-written pieces sit at the positions of the fields they
-replace (`Cols` 6, `SheetData` 7, `MergeCells` 16, `TableParts` 40); page breaks (`RowBreaks` 25, `ColBreaks` 26) lie in
-the second Flush range; every index from 2 to 38 is emitted exactly once. -/
+/-- **Schema order, exactly once.** The stream writer emits the worksheet children in the order of the
+`xlsxWorksheet` struct (= the order of the schema): the indices are strictly increasing, i.e. every field from
+`SheetPr` (2) to `ExtLst` (41) is emitted exactly once — `Cols` 6, `SheetData` 7, `MergeCells` 16 by hand, `TableParts` 40
+once, before `ExtLst` 41, after `mc:AlternateContent` 39; page breaks (`RowBreaks` 25, `ColBreaks` 26) in the second
+range. Index 42 (`DecodeAlternateContent`) is the decode-side alias of 39 and is never set on a loaded worksheet. -/
 theorem flush_schema_order :
-    emittedFields.Pairwise (· ≤ ·) ∧
+    emittedFields = List.range' 2 40 ∧
+    emittedFields.Pairwise (· < ·) ∧
+    (∀ i, 2 ≤ i → i ≤ 41 → emittedFields.count i = 1) ∧
     Facts.C11.worksheetFields[6]? = some "Cols" ∧ Facts.C11.worksheetFields[7]? = some "SheetData" ∧
-    Facts.C11.worksheetFields[16]? = some "MergeCells" ∧ Facts.C11.worksheetFields[40]? = some "TableParts" ∧
-    Facts.C11.worksheetFields[25]? = some "RowBreaks" ∧ Facts.C11.worksheetFields[26]? = some "ColBreaks" ∧
-    (∀ i, 2 ≤ i → i ≤ 38 → emittedFields.count i = 1) := by
-  refine ⟨by decide +kernel, by decide, by decide, by decide, by decide, by decide, by decide, ?_⟩
+    Facts.C11.worksheetFields[16]? = some "MergeCells" ∧ Facts.C11.worksheetFields[25]? = some "RowBreaks" ∧
+    Facts.C11.worksheetFields[26]? = some "ColBreaks" ∧ Facts.C11.worksheetFields[39]? = some "AlternateContent" ∧
+    Facts.C11.worksheetFields[40]? = some "TableParts" ∧ Facts.C11.worksheetFields[41]? = some "ExtLst" ∧
+    Facts.C11.worksheetFields[42]? = some "DecodeAlternateContent" ∧ Facts.C11.worksheetFields.length = 43 := by
+  have h : emittedFields = List.range' 2 40 := by decide +kernel
+  refine ⟨h, by rw [h]; decide +kernel, ?_, by decide, by decide, by decide, by decide, by decide, by decide,
+    by decide, by decide, by decide, by decide⟩
   intro i h1 h2
-  have : ∀ j : Fin 39, 2 ≤ j.val → emittedFields.count j.val = 1 := by decide +kernel
+  have : ∀ j : Fin 42, 2 ≤ j.val → emittedFields.count j.val = 1 := by rw [h]; decide +kernel
   exact this ⟨i, by omega⟩ h1
 
-/-- Deviation from "exactly once": the worksheet's own `TableParts` field (index 40) is appended *after* the
-`<tableParts>` string of `AddTable` — two `tableParts` elements if the sheet already had one — and the fields
-`AlternateContent` (39), `ExtLst` (41) and `DecodeAlternateContent` (42) are never written: an `extLst`
-the worksheet had before `NewStreamWriter` (x14 conditional formats, sparklines) is dropped by the stream writer. -/
-theorem finding_flush_tableParts_twice_extLst_never :
-    emittedFields.count 40 = 2 ∧ emittedFields.count 41 = 0 ∧ emittedFields.count 39 = 0 ∧
-    Facts.C11.worksheetFields[41]? = some "ExtLst" ∧ Facts.C11.worksheetFields[39]? = some "AlternateContent" := by
-  refine ⟨by decide +kernel, by decide +kernel, by decide +kernel, by decide, by decide⟩
-
-/-- Flush writes, after the rows: `</sheetData>`, the first field range, the merge block (once, with the count of the
-accepted MergeCell calls and their references in call order), the second range, the table parts, the third range,
-`</worksheet>` — nothing else. -/
+/-- Flush writes, after the rows: `</sheetData>`, fields 8..15, the merge block (once, with the count of the accepted
+MergeCell calls and their references in call order), fields 17..39, one table-parts element (AddTable's if there is one,
+else field 40), the extension list (field 41), `</worksheet>` — nothing else. -/
 theorem flush_epilogue (s : SW) (e : Epilog) :
-    epilogBytes s e = lit "</sheetData>" ++ bulk e (8, 15) ++ mergeBlock s ++ bulk e (17, 38) ++ e.tableParts
-      ++ bulk e (40, 40) ++ lit "</worksheet>" := by
+    epilogBytes s e = lit "</sheetData>" ++ bulk e (8, 15) ++ mergeBlock s ++ bulk e (17, 39)
+      ++ (if e.tableParts ≠ [] then e.tableParts else bulk e (40, 40)) ++ bulk e (41, 41) ++ lit "</worksheet>" := by
   rfl
 
 /-- Every accepted MergeCell adds its `<mergeCell ref="tl:br"/>` exactly once at the end of the merge list and counts
@@ -374,7 +356,7 @@ theorem skel_SetRow_ok : Facts.C11.skel_SetRow = ["call CellNameToCoordinates", 
 /-- skeleton of the Go function (calls, literals, comparison operators, field writes, returns in source order) -/
 theorem skel_marshalAttrs_ok : Facts.C11.skel_marshalAttrs = ["if", "op ==", "return", "if", "op >", "return", "if", "op >", "return", "if", "op >", "call WriteString", "lit  s=\"", "call WriteString", "call Itoa", "call WriteString", "lit \" customFormat=\"1\"", "if", "op >", "call WriteString", "lit  ht=\"", "call WriteString", "call FormatFloat", "call WriteString", "lit \" customHeight=\"1\"", "if", "op >", "call WriteString", "lit  outlineLevel=\"", "call WriteString", "call Itoa", "call WriteString", "lit \"", "if", "call WriteString", "lit  hidden=\"1\"", "return"] := by decide
 /-- skeleton of the Go function (calls, literals, comparison operators, field writes, returns in source order) -/
-theorem skel_writeCell_ok : Facts.C11.skel_writeCell = ["call WriteString", "lit <c", "if", "op !=", "lit ", "call WriteString", "lit  xml:", "call WriteString", "call WriteString", "lit =\"", "call WriteString", "call WriteString", "lit \"", "call WriteString", "lit  r=\"", "call WriteString", "call WriteString", "lit \"", "if", "op !=", "call WriteString", "lit  s=\"", "call WriteString", "call Itoa", "call WriteString", "lit \"", "if", "op !=", "lit ", "call WriteString", "lit  t=\"", "call WriteString", "call WriteString", "lit \"", "call WriteString", "lit >", "if", "op !=", "call WriteString", "lit <f>", "call EscapeText", "call WriteString", "lit </f>", "if", "op !=", "lit ", "call WriteString", "lit <v>", "call EscapeText", "call WriteString", "lit </v>", "if", "op !=", "if", "op >", "call len", "call Marshal", "call WriteString", "lit <is>", "call Write", "call WriteString", "lit </is>", "if", "op !=", "call WriteString", "lit <is><t", "if", "op !=", "lit ", "call WriteString", "lit  xml:", "call WriteString", "call WriteString", "lit =\"", "call WriteString", "call WriteString", "lit \"", "call WriteString", "lit >", "call Write", "call WriteString", "lit </t></is>", "call WriteString", "lit </c>"] := by decide
+theorem skel_writeCell_ok : Facts.C11.skel_writeCell = ["call WriteString", "lit <c", "if", "op !=", "lit ", "call WriteString", "lit  xml:", "call WriteString", "call WriteString", "lit =\"", "call WriteString", "call WriteString", "lit \"", "call WriteString", "lit  r=\"", "call WriteString", "call WriteString", "lit \"", "if", "op !=", "call WriteString", "lit  s=\"", "call WriteString", "call Itoa", "call WriteString", "lit \"", "if", "op !=", "lit ", "call WriteString", "lit  t=\"", "call WriteString", "call WriteString", "lit \"", "call WriteString", "lit >", "if", "op !=", "call WriteString", "lit <f>", "call EscapeText", "call WriteString", "lit </f>", "if", "op !=", "lit ", "call WriteString", "lit <v>", "call EscapeText", "call WriteString", "lit </v>", "if", "op !=", "call WriteString", "lit <is>", "if", "op !=", "call WriteString", "lit <t", "if", "op !=", "lit ", "call WriteString", "lit  xml:", "call WriteString", "call WriteString", "lit =\"", "call WriteString", "call WriteString", "lit \"", "call WriteString", "lit >", "call Write", "call WriteString", "lit </t>", "if", "op >", "call len", "call Marshal", "call Write", "call WriteString", "lit </is>", "call WriteString", "lit </c>"] := by decide
 /-- skeleton of the Go function (calls, literals, comparison operators, field writes, returns in source order) -/
 theorem skel_setCellFormula_ok : Facts.C11.skel_setCellFormula = ["if", "op !=", "lit ", "lit str"] := by decide
 /-- skeleton of the Go function (calls, literals, comparison operators, field writes, returns in source order) -/
@@ -382,7 +364,7 @@ theorem skel_setCellValFunc_ok : Facts.C11.skel_setCellValFunc = ["call setCellI
 /-- skeleton of the Go function (calls, literals, comparison operators, field writes, returns in source order) -/
 theorem skel_writeSheetData_ok : Facts.C11.skel_writeSheetData = ["if", "op !", "call bulkAppendFields", "if", "op !=", "call WriteString", "lit <cols>", "range", "call WriteString", "lit <col min=\"", "call WriteString", "call Itoa", "call WriteString", "lit \" max=\"", "call WriteString", "call Itoa", "call WriteString", "lit \"", "if", "op !=", "call WriteString", "lit  width=\"", "call WriteString", "call FormatFloat", "call WriteString", "lit \" customWidth=\"1\"", "if", "op !=", "call WriteString", "lit  style=\"", "call WriteString", "call Itoa", "call WriteString", "lit \"", "call WriteString", "lit />", "call WriteString", "lit </cols>", "call WriteString", "lit <sheetData>", "set sw.sheetWritten"] := by decide
 /-- skeleton of the Go function (calls, literals, comparison operators, field writes, returns in source order) -/
-theorem skel_Flush_ok : Facts.C11.skel_Flush = ["call writeSheetData", "call WriteString", "lit </sheetData>", "call bulkAppendFields", "if", "op >", "call WriteString", "lit <mergeCells count=\"", "call WriteString", "call Itoa", "call WriteString", "lit \">", "call WriteString", "call String", "call WriteString", "lit </mergeCells>", "call WriteString", "call String", "call bulkAppendFields", "call WriteString", "call bulkAppendFields", "call WriteString", "lit </worksheet>", "if", "op !=", "call Flush", "return", "call Delete", "call Delete", "call Delete", "return"] := by decide
+theorem skel_Flush_ok : Facts.C11.skel_Flush = ["call writeSheetData", "call WriteString", "lit </sheetData>", "call bulkAppendFields", "if", "op >", "call WriteString", "lit <mergeCells count=\"", "call WriteString", "call Itoa", "call WriteString", "lit \">", "call WriteString", "call String", "call WriteString", "lit </mergeCells>", "call WriteString", "call String", "call bulkAppendFields", "if", "op !=", "lit ", "call WriteString", "call bulkAppendFields", "call bulkAppendFields", "call WriteString", "lit </worksheet>", "if", "op !=", "call Flush", "return", "call Delete", "call Delete", "call Delete", "return"] := by decide
 /-- skeleton of the Go function (calls, literals, comparison operators, field writes, returns in source order) -/
 theorem skel_MergeCell_ok : Facts.C11.skel_MergeCell = ["call cellRefsToCoordinates", "if", "op !=", "return", "set sw.mergeCellsCount", "call WriteString", "lit <mergeCell ref=\"", "call WriteString", "call WriteString", "lit :", "call WriteString", "call WriteString", "lit \"/>", "return"] := by decide
 /-- skeleton of the Go function (calls, literals, comparison operators, field writes, returns in source order) -/
